@@ -324,6 +324,16 @@ impl World for MutexWorld {
         if self.futs.values().all(|f| f.done || !f.polled) && self.guards.is_empty() && st != 0 {
             m.push("C10".to_string());
         }
+        // C14: nothing alive that could conflict => try_lock succeeds (idle probe; restores state)
+        if self.guards.is_empty() && pending == 0 && snap.events[0].0 == 0 && st == 0 {
+            match self.mref().try_lock() {
+                Some(g) => drop(g),
+                None => m.push("C14".to_string()),
+            }
+        } else if self.guards.is_empty() && pending == 0 && st != 0 {
+            // no guard, nothing pending, yet the word is not zero: try_lock cannot succeed
+            m.push("C14".to_string());
+        }
         // C13: while the starved counter is non-zero, try_lock fails (a failed CAS changes nothing)
         if st >> 1 != 0 {
             if let Some(g) = self.mref().try_lock() {
